@@ -14,7 +14,6 @@ THEOREMS = [
     "Pedal.SandboxExec.c04_normal_run_reports_nothing",
     "Pedal.SandboxExec.c04_blocked_features_reported",
     "Pedal.SandboxExec.c04_history",
-    "Pedal.SandboxExec.c04_ladder_depth_independent",
     "Pedal.SandboxExec.c04_contained_when_nested",
     "Pedal.SandboxExec.c04_contained_partial",
     "Pedal.SandboxExec.c04_contained_full_of_no_excluded",
@@ -47,7 +46,7 @@ NOTES = [
     "Exception nor SystemExit is outside the statement and, in a worker thread, CPython's business: not compared)",
     "NESTED executions (started through an instructor hook while another execution is in progress on the same "
     "sandbox) are modelled (executeN / runN); c04_contained_when_nested: the call returns at any depth of the "
-    "stacks; exception slot and feedbacks of nested trees are compared through the driver (nhist), not proved; the "
+    "stacks (C05's depth independence of the ladder as the hypothesis DepthIndependent, discharged in C05.lean); exception slot and feedbacks of nested trees are compared through the driver (nhist), not proved; the "
     "sandbox has ONE exception slot: after an outer execution that ends normally it holds the failure of a nested "
     "one (modelled, and the oracle's 'no exception after a normal end' clause is skipped and counted there)",
     "odd exception OBJECTS: falsy / zero-length / equal-to-everything / unhashable instances are ordinary "
